@@ -59,6 +59,7 @@ class Conn:
         self.on_client_close = None
         self.tls = None  # dict when wrapped
         self.send_error = None  # exception to raise on next send
+        self.send_delay = 0.0  # virtual seconds every accepted send() takes (a slow / congested transport)
         self.max_recv_req = 0
         self.recv_calls = 0
         self.calls_after_close = []
@@ -296,6 +297,14 @@ class SimSocket:
         s = self._sched()
         if s is not None:
             s.yield_point("io", "send")
+            if self._closed:
+                raise OSError(errno.EBADF, "Bad file descriptor")
+        if c.send_delay and s is not None:
+            if self._timeout is not None and 0 < self._timeout < c.send_delay:
+                s.sleep(self._timeout)
+                self._log("send", len(data), "timeout")
+                raise _real_timeout("timed out")
+            s.sleep(c.send_delay)
             if self._closed:
                 raise OSError(errno.EBADF, "Bad file descriptor")
         if c.send_error is not None:
